@@ -332,10 +332,18 @@ def r_stmt(s, ind, twin, ctx):
         return out
     if k == "with":
         key, e, t, body = s[1], s[2], s[3], s[4]
-        head = f"{ind}with CM({key!r}, {r_expr(e, twin)})" + (f" as {r_target(t, twin)}" if t else "") + ":"
+        head = f"{ind}with CM({key!r}, {r_expr(e, twin)})" + (f" as {r_target(t, twin)}" if t else "")
+        t2 = None
+        if len(s) > 5 and s[5]:
+            # a second item in the same with statement
+            key2, e2, t2 = s[5]
+            head += f", CM({key2!r}, {r_expr(e2, twin)}) as {r_target(t2, twin)}"
+        head += ":"
         inner = []
         if twin and t:
             inner += _binds(target_names(t), ind + IND)
+        if twin and t2:
+            inner += _binds(target_names(t2), ind + IND)
         inner += r_stmts(body, ind + IND, twin, ctx)
         return [head] + inner
     if k == "import":
@@ -571,9 +579,12 @@ def bound_names(fn):
         elif k == "for":
             for n in target_names(s[1]):
                 add(n, "for")
-        elif k == "with" and s[3]:
-            for n in target_names(s[3]):
+        elif k == "with" and (s[3] or (len(s) > 5 and s[5])):
+            for n in target_names(s[3]) if s[3] else []:
                 add(n, "with")
+            if len(s) > 5 and s[5]:
+                for n in target_names(s[5][2]):
+                    add(n, "with")
         elif k == "try":
             for exc, asname, _ in s[2]:
                 if asname:
@@ -1124,8 +1135,15 @@ def functions(flags=None, want_gen=None):
                     else:
                         t = name_target()
                     mark(bound, t)
+                second = None
+                if t is not None and draw(st.integers(0, 2)) == 0:
+                    counters["cm"] += 1
+                    e2 = int_expr(bound, 1)
+                    t2 = name_target()
+                    mark(bound, t2)
+                    second = (f"w{counters['cm']}", e2, t2)
                 body = block(bound, depth + 1, in_loop, in_fn_gen)
-                return [("with", key, e, t, body)]
+                return [("with", key, e, t, body, second)]
             return [("pass",)]
 
         bound = set(pnames)
